@@ -4,7 +4,9 @@ item_dataset: the statement skeleton of DaskLazyIndexer.dataset (katdal/lazy_ind
 statement, into the instruction set of coq/Model/DaskLazy.v (lock scope, test of the cell, resolution of a parent
 indexer, stage 1, transform loop, publication of self._dataset, clearing of self._orig_dataset, return), as
 (opcode, a, b) triples in source order.  Every statement must have exactly one of the shapes below, anything else
-is refused (fail-closed).  Together with it: what __init__ leaves in the fields, which other methods of the class touch
+is refused (fail-closed).  item_range_to_slice / item_getitem: every decision expression of _range_to_slice,
+_dask_oindex and dask_getitem (tests, default values, the slice returned, the cull threshold) as a Coq definition, and
+the statement skeletons of dask_getitem / _dask_oindex / _simplify_index matched exactly.  Together with item_dataset: what __init__ leaves in the fields, which other methods of the class touch
 the two private fields, and how the other accessors reach the data set (shape / dtype / __getitem__ / get all go
 through the `dataset` property).
 """
@@ -208,4 +210,201 @@ def item_dataset(repo, out):
         out.append('Definition c04_%s_via_dataset : bool := %s.' % (nm, flag(via[nm])))
 
 
-ITEMS = [item_dataset]
+# ----------------------------------------------------------------------------------------------------
+# decision expressions and statement skeletons of the helper functions the hand-written model mirrors
+
+
+class _Expr:
+    """tiny expression translator: Python int/bool expression over named variables -> Coq (Z / bool)."""
+    def __init__(self, env, what):
+        self.env, self.what = env, what       # env: python source of a sub-expression -> Coq variable name
+
+    def z(self, n):
+        src = ast.unparse(n)
+        if src in self.env:
+            return self.env[src]
+        if isinstance(n, ast.Constant) and isinstance(n.value, int) and not isinstance(n.value, bool):
+            return '(%d)' % n.value
+        if isinstance(n, ast.UnaryOp) and isinstance(n.op, ast.USub):
+            return '(- %s)' % self.z(n.operand)
+        if isinstance(n, ast.BinOp) and isinstance(n.op, (ast.Add, ast.Sub, ast.Mult)):
+            op = {ast.Add: '+', ast.Sub: '-', ast.Mult: '*'}[type(n.op)]
+            return '(%s %s %s)' % (self.z(n.left), op, self.z(n.right))
+        raise TranslateError('%s: unsupported integer expression `%s`' % (self.what, src))
+
+    def b(self, n):
+        src = ast.unparse(n)
+        if src in self.env:
+            return self.env[src]
+        if isinstance(n, ast.BoolOp):
+            op = '&&' if isinstance(n.op, ast.And) else '||'
+            return '(' + (' %s ' % op).join(self.b(v) for v in n.values) + ')'
+        if isinstance(n, ast.UnaryOp) and isinstance(n.op, ast.Not):
+            return '(negb %s)' % self.b(n.operand)
+        if isinstance(n, ast.Compare) and len(n.ops) == 1:
+            l, r = n.left, n.comparators[0]
+            # A < 0.5 * B   (the cull condition): 2 * A < B
+            if (isinstance(n.ops[0], ast.Lt) and isinstance(r, ast.BinOp) and isinstance(r.op, ast.Mult)
+                    and isinstance(r.left, ast.Constant) and r.left.value == 0.5):
+                return '(2 * %s <? %s)' % (self.z(l), self.z(r.right))
+            a, c = self.z(l), self.z(r)
+            t = type(n.ops[0])
+            if t is ast.Lt:
+                return '(%s <? %s)' % (a, c)
+            if t is ast.LtE:
+                return '(%s <=? %s)' % (a, c)
+            if t is ast.Gt:
+                return '(%s <? %s)' % (c, a)
+            if t is ast.GtE:
+                return '(%s <=? %s)' % (c, a)
+            if t is ast.Eq:
+                return '(%s =? %s)' % (a, c)
+            if t is ast.NotEq:
+                return '(negb (%s =? %s))' % (a, c)
+        raise TranslateError('%s: unsupported boolean expression `%s`' % (self.what, src))
+
+
+def _expect(cond, what):
+    if not cond:
+        raise TranslateError(what)
+
+
+def _opt(n, ex):
+    """slice argument: None | int expression -> Coq option Z"""
+    if isinstance(n, ast.Constant) and n.value is None:
+        return 'None'
+    if isinstance(n, ast.IfExp) and isinstance(n.orelse, ast.Constant) and n.orelse.value is None:
+        return '(if %s then Some %s else None)' % (ex.b(n.test), ex.z(n.body))
+    if isinstance(n, ast.IfExp) and isinstance(n.body, ast.Constant) and n.body.value is None:
+        return '(if %s then None else Some %s)' % (ex.b(n.test), ex.z(n.orelse))
+    return '(Some %s)' % ex.z(n)
+
+
+def _slice3(n, ex, what):
+    _expect(isinstance(n, ast.Call) and isinstance(n.func, ast.Name) and n.func.id == 'slice' and len(n.args) == 3
+            and not n.keywords, what + ': expected slice(a, b, c)')
+    return '(%s, %s, %s)' % tuple(_opt(a, ex) for a in n.args)
+
+
+def item_range_to_slice(repo, out):
+    """_range_to_slice, statement by statement; every decision expression becomes a Coq definition."""
+    w = '_range_to_slice'
+    f = _func(_parse(repo, REL), w, REL)
+    _expect([a.arg for a in f.args.args] == ['index'], w + ': signature')
+    b = _nodoc(f.body)
+    _expect(len(b) == 8, w + ': expected 8 statements, found %d' % len(b))
+    # if not len(index): return slice(None, 0, None)
+    s = b[0]
+    _expect(isinstance(s, ast.If) and ast.unparse(s.test) == 'not len(index)' and not s.orelse and len(s.body) == 1
+            and isinstance(s.body[0], ast.Return), w + ': empty-index test')
+    out.append('Definition c04_r2s_empty : option Z * option Z * option Z := %s.'
+               % _slice3(s.body[0].value, _Expr({}, w), w))
+    # if any(i < 0 for i in index): raise ValueError
+    s = b[1]
+    ok = (isinstance(s, ast.If) and not s.orelse and len(s.body) == 1 and isinstance(s.body[0], ast.Raise)
+          and ast.unparse(s.body[0].exc).startswith('ValueError(')
+          and isinstance(s.test, ast.Call) and isinstance(s.test.func, ast.Name) and s.test.func.id == 'any'
+          and len(s.test.args) == 1 and isinstance(s.test.args[0], ast.GeneratorExp))
+    _expect(ok, w + ': negative-element test')
+    g = s.test.args[0]
+    _expect(len(g.generators) == 1 and ast.unparse(g.generators[0].iter) == 'index' and not g.generators[0].ifs
+            and isinstance(g.generators[0].target, ast.Name), w + ': negative-element generator')
+    out.append('Definition c04_r2s_bad_element (i : Z) : bool := %s.'
+               % _Expr({g.generators[0].target.id: 'i'}, w).b(g.elt))
+    # increments_left = set(np.diff(index)); step = increments_left.pop() if increments_left else 1
+    _expect(ast.unparse(b[2]) == 'increments_left = set(np.diff(index))', w + ': increments')
+    s = b[3]
+    _expect(isinstance(s, ast.Assign) and ast.unparse(s.targets[0]) == 'step' and isinstance(s.value, ast.IfExp)
+            and ast.unparse(s.value.test) == 'increments_left' and ast.unparse(s.value.body) == 'increments_left.pop()',
+            w + ': step')
+    out.append('Definition c04_r2s_default_step : Z := %s.' % _Expr({}, w).z(s.value.orelse))
+    # if step == 0 or increments_left: raise ValueError
+    s = b[4]
+    _expect(isinstance(s, ast.If) and not s.orelse and len(s.body) == 1 and isinstance(s.body[0], ast.Raise)
+            and ast.unparse(s.body[0].exc).startswith('ValueError('), w + ': uneven test')
+    out.append('Definition c04_r2s_reject (step : Z) (increments_left : bool) : bool := %s.'
+               % _Expr({'step': 'step', 'increments_left': 'increments_left'}, w).b(s.test))
+    # start = index[0]; stop = index[-1] + step; return slice(start, stop if stop >= 0 else None, step)
+    _expect(ast.unparse(b[5]) == 'start = index[0]', w + ': start')
+    s = b[6]
+    _expect(isinstance(s, ast.Assign) and ast.unparse(s.targets[0]) == 'stop', w + ': stop')
+    out.append('Definition c04_r2s_stop (last step : Z) : Z := %s.'
+               % _Expr({'index[-1]': 'last', 'step': 'step'}, w).z(s.value))
+    s = b[7]
+    _expect(isinstance(s, ast.Return), w + ': return')
+    out.append('Definition c04_r2s_result (start stop step : Z) : option Z * option Z * option Z := %s.'
+               % _slice3(s.value, _Expr({'start': 'start', 'stop': 'stop', 'step': 'step'}, w), w))
+
+
+def item_getitem(repo, out):
+    """dask_getitem / _dask_oindex / _simplify_index: statement skeletons and decision expressions."""
+    tree = _parse(repo, REL)
+    w = '_dask_oindex'
+    f = _func(tree, w, REL)
+    b = _nodoc(f.body)
+    ok = ([a.arg for a in f.args.args] == ['x', 'indices'] and len(b) == 3 and ast.unparse(b[0]) == 'axis = 0'
+          and isinstance(b[1], ast.For) and ast.unparse(b[1].target) == 'index' and ast.unparse(b[1].iter) == 'indices'
+          and not b[1].orelse and ast.unparse(b[2]) == 'return x')
+    _expect(ok, w + ': skeleton')
+    lb = _nodoc(b[1].body)
+    _expect(len(lb) == 2 and ast.unparse(lb[0]) == 'x = da.take(x, index, axis=axis)', w + ': take step')
+    s = lb[1]
+    _expect(isinstance(s, ast.If) and not s.orelse and len(s.body) == 1 and isinstance(s.body[0], ast.AugAssign)
+            and ast.unparse(s.body[0].target) == 'axis' and isinstance(s.body[0].op, ast.Add), w + ': axis step')
+    out.append('Definition c04_oindex_axis_step (is_int : bool) (axis : Z) : Z := if %s then axis + %s else axis.' % (
+        _Expr({'isinstance(index, Integral)': 'is_int'}, w).b(s.test), _Expr({}, w).z(s.body[0].value)))
+    w = 'dask_getitem'
+    f = _func(tree, w, REL)
+    b = _nodoc(f.body)
+    _expect([a.arg for a in f.args.args] == ['x', 'indices'] and len(b) == 4, w + ': skeleton')
+    _expect(ast.unparse(b[0]) == 'indices = _simplify_index(indices, x.shape)', w + ': simplification step')
+    t = b[1]
+    ok = (isinstance(t, ast.Try) and len(t.body) == 1 and ast.unparse(t.body[0]) == 'out = x[indices]'
+          and len(t.handlers) == 1 and ast.unparse(t.handlers[0].type) == 'NotImplementedError'
+          and len(t.handlers[0].body) == 1 and ast.unparse(t.handlers[0].body[0]) == 'out = _dask_oindex(x, indices)'
+          and not t.orelse and not t.finalbody)
+    _expect(ok, w + ': x[indices] with fallback to _dask_oindex on NotImplementedError')
+    c = b[2]
+    _expect(isinstance(c, ast.If) and not c.orelse and ast.unparse(b[3]) == 'return out', w + ': cull / return')
+    out.append('Definition c04_cull_test (out_blocks x_blocks : Z) : bool := %s.' % _Expr(
+        {'np.prod(out.numblocks)': 'out_blocks', 'np.prod(x.numblocks)': 'x_blocks'}, w).b(c.test))
+    cb = [ast.unparse(s) for s in _nodoc(c.body)]
+    _expect(cb == ['dsk = dask.optimization.cull(out.dask, out.__dask_keys__())[0]',
+                   'out.dask = dask.highlevelgraph.HighLevelGraph.from_collections(out.name, dsk)'], w + ': cull body')
+    w = '_simplify_index'
+    f = _func(tree, w, REL)
+    b = _nodoc(f.body)
+    _expect([a.arg for a in f.args.args] == ['indices', 'shape'] and len(b) == 5, w + ': skeleton')
+    _expect([ast.unparse(s) for s in (b[0], b[1], b[2], b[4])] == [
+        'indices = da.slicing.normalize_index(indices, shape)', 'out = []', 'axis = 0', 'return tuple(out)'], w + ': frame')
+    lp = b[3]
+    _expect(isinstance(lp, ast.For) and ast.unparse(lp.target) == 'index' and ast.unparse(lp.iter) == 'indices'
+            and not lp.orelse, w + ': loop')
+    expect_loop = '''if index is not np.newaxis:
+    length = shape[axis]
+    axis += 1
+    if isinstance(index, np.ndarray) and index.ndim == 1:
+        try:
+            index = _range_to_slice(index)
+        except ValueError:
+            pass
+        else:
+            index = da.slicing.normalize_slice(index, length)
+out.append(index)'''
+    got = '\n'.join(ast.unparse(s) for s in _nodoc(lp.body))
+    _expect(got == expect_loop, w + ': loop body changed')
+    out.append('Definition c04_simplify_loop_as_modelled : bool := true.')
+
+
+
+
+def dataset_code(repo):
+    """the (opcode, a, b) triples of DaskLazyIndexer.dataset in the given tree, or None when it is refused"""
+    try:
+        cls = _class(_parse(repo, REL), CLS, REL)
+        return [list(t) for t in _stmts(_func(cls, 'dataset', REL).body, _Vars(), 'DaskLazyIndexer.dataset', False)]
+    except TranslateError:
+        return None
+
+
+ITEMS = [item_dataset, item_range_to_slice, item_getitem]
